@@ -1,4 +1,5 @@
 import AasVerif.Lemmas.RulesStages
+import AasVerif.Lemmas.RulesAncestors
 /-!
 # C06 — Accepted meta-models satisfy the structural rules
 
@@ -14,8 +15,8 @@ visibly:
   implementation does not either; the real `aas_core_meta` uses literals such as `Boolean`);
 * constrained primitives (classes inheriting from a primitive type) and their invariants;
 * type shapes of method and function arguments (the implementation checks properties only).
-Planned, not proved: `stacked`/`ancestors` against the declarative closure (`a ∈ ancestors ↔ Reach`,
-that is property C05's `ancestors_exact`); `Anchored p → p` starts with `^` and ends with `$` as a text.
+Planned, not proved: `stacked` (the order of inherited properties/invariants) against a declarative
+characterisation (property C05); `Anchored p → p` starts with `^` and ends with `$` as a text.
 -/
 namespace AasVerif.Props.C06
 open AasVerif AasVerif.Rules
@@ -131,5 +132,31 @@ theorem accepted_names_unique (m : MM) (h : check m = []) :
 theorem accepted_shapes (m : MM) (h : check m = []) :
     ∀ c ∈ m.classes, ∀ p ∈ stackedProps m.classes c, p.ty.Supported :=
   ((check_sound_complete m).mp h).shapes
+
+/-- **Ancestors are exact.** In an acyclic hierarchy the declared classes listed by `ancestors`
+(with the fuel stage 6 supplies) are exactly those reached through the transitive closure of `parent`. -/
+theorem ancestors_exact (cs : List Cls) (hac : ∀ n, ¬ Reach cs n n) (n a : Text) :
+    (a ∈ ancestors cs cs.length n ∧ (findCls cs a).isSome) ↔ Reach cs n a :=
+  mem_ancestors_iff_reach hac n a
+
+/-- Listed ancestors are reached in every hierarchy, cyclic or not, for every fuel. -/
+theorem ancestors_sound (cs : List Cls) (fuel : Nat) (n a : Text) (h : a ∈ ancestors cs fuel n)
+    (hd : (findCls cs a).isSome) : Reach cs n a :=
+  Rules.ancestors_sound cs fuel n a h hd
+
+/-- **No re-declared inherited member**, stated with the transitive closure: in an accepted
+meta-model no own member (property or method) of a class is named like a member of a class it reaches. -/
+theorem accepted_no_redeclaration (m : MM) (h : check m = []) :
+    ∀ c ∈ m.classes, ∀ n a, Reach m.classes c.name n → findCls m.classes n = some a →
+      ∀ x ∈ c.propNames ++ c.methods, x ∉ a.propNames ++ a.methods := by
+  intro c hc n a r hf x hx hxa
+  have s := (check_sound_complete m).mp h
+  have ha : a ∈ ancestorClasses m.classes c := (mem_ancestorClasses_iff s.acyclic c a).mpr ⟨n, r, hf⟩
+  exact s.noRedeclaration c hc x hx (List.mem_flatMap.mpr ⟨a, ha, hxa⟩)
+
+/-- non-vacuity of `ancestors_exact`: a chain `C → B → A` is acyclic and `C` reaches `A`. -/
+example :
+    let cs : List Cls := [⟨[65], [], [], [], [], none⟩, ⟨[66], [[65]], [], [], [], none⟩, ⟨[67], [[66]], [], [], [], none⟩]
+    [65] ∈ ancestors cs cs.length [67] ∧ (findCls cs [65]).isSome := by decide
 
 end AasVerif.Props.C06
